@@ -121,6 +121,12 @@ CHECKS = {
         text="Real ProfileTrans, ExtractTrans, NanTestTrans and ReadOnlyVerifyTrans (no force) on every consecutive statement range of every schedule (routine body, loop bodies, branches) of a program family containing EXIT, CYCLE, named CYCLE, RETURN, forward GOTO, DO WHILE and branches, plus a two-region history with one re-used transformation object (first region user-named, second default-named) and an enclosing third region. FortranWriter lowers the PSyData nodes; the written text is executed symbolically and every PSyData call becomes an event guarded by its path condition. z3 decides that no input makes a region start while open, end while closed, end out of LIFO order, receive another hook call while closed, or stay open at routine exit. Region-name uniqueness is a static comparison. Witnesses are replayed by compiling the instrumented text against a checking stub PSyData library with gfortran.",
         note="Bounds: loops unrolled to K=3/4 (trip <= K assumed), regions of <= 3 statements; executions reaching STOP are outside the claim. Control transfers are executed by the interpreter's own semantics, not PSyclone's. Trusted: fparser2, z3, fsym, gfortran for replay.",
         ref="5/C28"),
+    "C29": dict(
+        level="model_checking", engine="pysx",
+        technique="symbolic execution of the real Python method (AST -> z3, merged paths) against a most-general file-system environment: every answer of the file system is a fresh solver variable (assume/guarantee), one SMT query per obligation",
+        text="CodedKern.rename_and_write is read from /repo at run time and executed by the pysx interpreter. Concurrent PSyclone runs are the environment: each exists/size/content question and each open attempt is answered by a fresh solver variable, constrained only by monotone existence; the open flags are taken from the AST. z3 decides for both naming schemes and all environment behaviours within R naming attempts: every write goes through a descriptor from this run's own successful O_CREAT|O_EXCL open and no existing file is opened for writing; the suffix passed to _rename_psyir is that of the file created; the loop terminates when a name is free; under 'single' nothing is created when the name exists, the run raises iff the content read differs, and it succeeds when the other run's final content is identical. Witnesses are replayed on the real method with os/open wrapped to give the witness answers.",
+        note="Bounds: R = 3 (quick) / 5 (thorough) naming attempts. The other runs are not executed: they are over-approximated by the environment (any interleaving is some sequence of answers). FortranWriter, FortLineLength, Config and _rename_psyir are stubs. Trusted: pysx, z3.",
+        ref="5/C29"),
 }
 
 NA = {
